@@ -558,12 +558,16 @@ class BufInterp(Interp):
                 out.append(('ltlen', l))
         elif t is ast.GtE:
             out.append(('nonneg', l - r))
+            if l == qlen:
+                out.append(('ltlen', r - Aff(1)))
         elif t is ast.Gt:
             out.append(('neg', r - l))
             if l == qlen:
                 out.append(('ltlen', r))
         elif t is ast.LtE:
             out.append(('nonneg', r - l))
+            if r == qlen:
+                out.append(('ltlen', l - Aff(1)))
         return out
 
     # ---- statements
